@@ -72,14 +72,14 @@ Definition set_bad (s : sst) : sst :=
 
 Definition is_live (s : sst) (i : id) : bool := match procs s i with Some _ => true | None => false end.
 
-(* a losing spawn: ActorDuplicateIdEvent and nothing else; [adopt] is the
-   children-map entry SpawnChild writes whatever the outcome *)
-Definition dup_spawn (s : sst) (i : id) (adopt : option id) : sst :=
-  {| procs := procs s;
-     kids := match adopt with Some p => fupd (kids s) p (set_add i (kids s p)) | None => kids s end;
+(* a losing spawn: ActorDuplicateIdEvent and nothing else — also for SpawnChild,
+   which writes its children-map entry only when Registry.insert succeeded
+   (fix D21; before it the caller recorded the incumbent as its child) *)
+Definition dup_spawn (s : sst) (i : id) : sst :=
+  {| procs := procs s; kids := kids s;
      runs := runs s; dups := fupd (dups s) i (S (dups s i)); recvd := recvd s; gate := gate s; bad := bad s |}.
 
-(* a winning spawn: registered, Producer run, Started *)
+(* a winning spawn: registered, recorded in the parent's children map, Producer run, Started *)
 Definition win_spawn (s : sst) (i : id) (parent : option id) : sst :=
   {| procs := fupd (procs s) i (Some {| p_inc := S (runs s i); p_parent := parent; p_queue := [];
                                         p_blocked := false; p_stopping := false |});
@@ -89,7 +89,7 @@ Definition win_spawn (s : sst) (i : id) (parent : option id) : sst :=
      runs := fupd (runs s) i (S (runs s i)); dups := dups s; recvd := recvd s; gate := gate s; bad := bad s |}.
 
 Definition spawn (s : sst) (i : id) (parent : option id) : sst :=
-  if is_live s i then dup_spawn s i parent else win_spawn s i parent.
+  if is_live s i then dup_spawn s i else win_spawn s i parent.
 
 (* process.cleanup: poison every child and wait, then (Stopped handled)
    Registry.Remove, then leave the parent's children map.  A child that is not
